@@ -1503,6 +1503,14 @@ impl<'a, Octs: Octets + ?Sized> MessageTsig<'a, Octs> {
             // If it's None, then it's some other record type, and we just
             // continue.
             if let Some(record) = record {
+                // RFC 8945, section 4.2: CLASS must be ANY and TTL must be 0.
+                // Both are part of the signed TSIG variables (section 4.3.3)
+                // but enter the MAC as constants, so a record carrying other
+                // values would verify if it were not refused here.
+                if record.class() != Class::ANY || record.ttl().as_secs() != 0
+                {
+                    return Err(TsigError::Invalid);
+                }
                 // Other data is either empty or a 48 bit time stamp (RFC
                 // 8945, section 4.2). Anything else is not represented in
                 // `Variables` and would escape the signature.
